@@ -128,8 +128,14 @@ def _inlinable(model, h: FuncInfo, caller: Optional[FuncInfo] = None) -> bool:
     if h.module.short in ROLE_MODULES:
         # the storage module's API functions carry roles that are recognised at their call sites in other modules:
         # they stay.  A new *private* module-level helper used by them inside the module (`_top_frame()`) is ordinary
-        # code of theirs.
-        if not (caller is not None and caller.module is h.module and h.cls is None and h.parent is None and h.name.startswith("_") and not h.name.startswith("__")):
+        # code of theirs -- and so is a new function that only *uses* the API (calls get / set / push, copies what it got)
+        # without touching a module-level object of the storage module itself, when it is called from another module
+        in_module_helper = caller is not None and caller.module is h.module and h.cls is None and h.parent is None and h.name.startswith("_") and not h.name.startswith("__")
+        api_user = caller is not None and caller.module is not h.module and h.cls is None and h.parent is None and _fn_names_portable(model, h, caller, dry=True)
+        if not (in_module_helper or api_user):
+            return False
+    elif caller is not None and caller.module is not h.module and h.cls is None and h.parent is None and isinstance(h.node, ast.FunctionDef):
+        if not _fn_names_portable(model, h, caller, dry=True):
             return False
     if isinstance(h.parent, FuncInfo):
         # a local function defined more than once under one name (`if c: def f.. else: def f..`) or re-bound:
@@ -168,6 +174,40 @@ def _inlinable(model, h: FuncInfo, caller: Optional[FuncInfo] = None) -> bool:
                 return False
         if isinstance(x, ast.Name) and x.id in ("locals", "vars", "super", "__class__"):
             return False
+    return True
+
+
+def _fn_names_portable(model, h, caller, dry=False) -> bool:
+    """Do the global names read by function h mean the same thing in the caller's module (same function / class / external object)?
+    Functions and classes of h's own module that the caller's module does not bind are importable: with dry=False they are imported
+    into the caller's module (the analysed program only).  A module-level *variable* of h's module is not portable."""
+    own = h.module
+    bound_ = {a.arg for a in ast.walk(h.node.args) if isinstance(a, ast.arg)} | {x.id for x in ast.walk(h.node) if isinstance(x, ast.Name) and isinstance(x.ctx, (ast.Store, ast.Del))}
+    for x in ast.walk(h.node):
+        if isinstance(x, (ast.Import, ast.ImportFrom)):
+            for al in x.names:
+                bound_.add((al.asname or al.name).split(".")[0])
+    need_imports = set()
+    for x in ast.walk(h.node):
+        if not (isinstance(x, ast.Name) and isinstance(x.ctx, ast.Load)) or x.id in bound_:
+            continue
+        b1 = model.resolve_name(h, x.id)
+        b2 = model.resolve_name(caller, x.id)
+        if b1.kind == "builtin" and b2.kind == "builtin":
+            continue
+        if b1.kind in ("func", "class") and b2.kind == b1.kind and b1.target is b2.target:
+            continue
+        if b1.kind in ("ext", "module") and b2.kind == b1.kind and b1.target == b2.target:
+            continue
+        if b1.kind in ("func", "class") and b2.kind == "unknown" and b1.target.module is own and getattr(b1.target, "parent", None) is None and getattr(b1.target, "cls", None) is None:
+            need_imports.add(x.id)
+            continue
+        return False
+    if need_imports and not dry:
+        umod = caller.module
+        umod.tree.body.insert(0, ast.ImportFrom(module=own.short, names=[ast.alias(name=n_, asname=None) for n_ in sorted(need_imports)], level=1))
+        ast.fix_missing_locations(umod.tree)
+        umod.imports.update({n_: f"jaxtyping.{own.short}.{n_}" for n_ in need_imports})
     return True
 
 
@@ -431,6 +471,21 @@ def _assign(target, value, loc) -> list:
     """`target = value`; a tuple assigned to a tuple of names is split into one assignment per name
     when no later value reads an earlier target (so the order does not matter); `x = x` is dropped."""
     if isinstance(target, (ast.Tuple, ast.List)) and isinstance(value, (ast.Tuple, ast.List)) and len(target.elts) == len(value.elts) \
+            and any(isinstance(t, (ast.Tuple, ast.List)) for t in target.elts) and not any(isinstance(v, ast.Starred) for v in value.elts) \
+            and all(isinstance(v, (ast.Name, ast.Constant)) for v in value.elts):
+        # `(a, b), c = (x, y)` with plain values: one assignment per element (the values are names: no evaluation order to keep)
+        safe_ = True
+        for i, t in enumerate(target.elts):
+            written = {y.id for y in ast.walk(t) if isinstance(y, ast.Name)}
+            for j, v in enumerate(value.elts):
+                if j > i and isinstance(v, ast.Name) and v.id in written and not (isinstance(target.elts[j], ast.Name) and target.elts[j].id == v.id):
+                    safe_ = False
+        if safe_:
+            out = []
+            for t, v in zip(target.elts, value.elts):
+                out.extend(_assign(t if not isinstance(t, ast.Name) else t.id, v, loc))
+            return out or [ast.copy_location(ast.Pass(), loc)]
+    if isinstance(target, (ast.Tuple, ast.List)) and isinstance(value, (ast.Tuple, ast.List)) and len(target.elts) == len(value.elts) \
             and all(isinstance(t, ast.Name) for t in target.elts) and not any(isinstance(v, ast.Starred) for v in value.elts):
         names = [t.id for t in target.elts]
         safe = True
@@ -489,8 +544,8 @@ def _expand_stmt(model, caller: FuncInfo, st, inventory) -> Optional[list]:
     elif isinstance(st, ast.Assign) and len(st.targets) == 1 and isinstance(st.targets[0], ast.Name) and isinstance(st.value, ast.Call):
         call, mode, target = st.value, "assign", st.targets[0].id
     elif isinstance(st, ast.Assign) and len(st.targets) == 1 and isinstance(st.targets[0], (ast.Tuple, ast.List)) and isinstance(st.value, ast.Call) \
-            and all(isinstance(e, ast.Name) for e in st.targets[0].elts):
-        call, mode, target = st.value, "assign", st.targets[0]
+            and all(isinstance(e, ast.Name) or (isinstance(e, (ast.Tuple, ast.List)) and all(isinstance(e2, ast.Name) for e2 in e.elts)) for e in st.targets[0].elts):
+        call, mode, target = st.value, "assign", st.targets[0]  # (one level of nesting: `(a, b), c = H()`)
     elif isinstance(st, ast.Assign) and len(st.targets) == 1 and isinstance(st.targets[0], ast.Attribute) and _simple(st.targets[0].value) and isinstance(st.value, ast.Call):
         call, mode, target = st.value, "assign", st.targets[0]  # `obj.attr = H(...)`
     elif isinstance(st, ast.AnnAssign) and isinstance(st.target, ast.Name) and isinstance(st.value, ast.Call):
@@ -505,11 +560,13 @@ def _expand_stmt(model, caller: FuncInfo, st, inventory) -> Optional[list]:
     h = t.target
     if h.parent is not None and isinstance(h.parent, FuncInfo) and h.parent is not caller:
         return None  # a closure of some other function
+    if caller.module is not h.module and h.cls is None and h.parent is None:
+        _fn_names_portable(model, h, caller, dry=False)
     tnames = ()
     if isinstance(target, str):
         tnames = (target,)
     elif isinstance(target, (ast.Tuple, ast.List)):
-        tnames = tuple(e.id for e in target.elts if isinstance(e, ast.Name))
+        tnames = tuple(y.id for e in target.elts for y in ast.walk(e) if isinstance(y, ast.Name))
     b = _bind(model, caller, call, h, tnames)
     if b is None:
         return None
@@ -3966,6 +4023,37 @@ def unify_duplicate_unpackings(model, only: set) -> list:
                         x.id = keep
                 st.targets = st.targets[:1]
                 done.append((q, keep))
+        # `a, b, c, d = T` directly followed by `g(a, b, c, d)` (the names used for nothing else): `g(*T)`
+        def restar(stmts):
+            ch_ = False
+            i = 0
+            while i + 1 < len(stmts):
+                a_, b_ = stmts[i], stmts[i + 1]
+                if isinstance(a_, ast.Assign) and len(a_.targets) == 1 and isinstance(a_.targets[0], (ast.Tuple, ast.List)) and isinstance(a_.value, ast.Name) \
+                        and all(isinstance(e, ast.Name) for e in a_.targets[0].elts) and isinstance(b_, ast.Expr) and isinstance(b_.value, ast.Call) and not b_.value.keywords \
+                        and [norm_dotted(x) if isinstance(x, ast.Name) else None for x in b_.value.args] == [e.id for e in a_.targets[0].elts]:
+                    names_ = [e.id for e in a_.targets[0].elts]
+                    uses_ = [x for x in ast.walk(f.node) if isinstance(x, ast.Name) and x.id in names_]
+                    if len(uses_) == 2 * len(names_) and len(set(names_)) == len(names_):
+                        b_.value.args = [ast.Starred(value=ast.Name(id=a_.value.id, ctx=ast.Load()), ctx=ast.Load())]
+                        del stmts[i]
+                        ch_ = True
+                        continue
+                i += 1
+            for st in stmts:
+                if isinstance(st, (ast.FunctionDef, ast.AsyncFunctionDef, ast.ClassDef)):
+                    continue
+                for fld in ("body", "orelse", "finalbody"):
+                    sub = getattr(st, fld, None)
+                    if isinstance(sub, list) and sub and isinstance(sub[0], ast.stmt):
+                        ch_ |= restar(sub)
+                for hd in getattr(st, "handlers", []) or []:
+                    ch_ |= restar(hd.body)
+            return ch_
+
+        if restar(f.node.body):
+            ast.fix_missing_locations(f.node)
+            done.append((q, "*"))
         for _ in range(4):
             stores = {}
             for x in ast.walk(f.node):
@@ -4031,4 +4119,127 @@ def unify_duplicate_unpackings(model, only: set) -> list:
                 holder.append(ast.copy_location(ast.Pass(), second))
             ast.fix_missing_locations(f.node)
             done.append((q, second.value.id))
+    return done
+
+
+# --------------------------------------------------------------------------- NamedTuple interfaces
+def erase_namedtuple_interfaces(model, module_names: dict) -> list:
+    """A new NamedTuple class that has become the *interface* between functions (`get_shape_memo() -> ShapeMemos`,
+    `memos.single_memo`, `memos.snapshot()`) is erased package-wide: `<e>.field` -> `<e>[i]`, `Cls(a, b, c, d)` -> `(a, b, c, d)`,
+    `<name>.method()` -> the method's single return expression with `self` := the name, annotations naming the class dropped.
+    A NamedTuple *is* the tuple, and attribute access by a field name means that position whatever the static type of `<e>` is --
+    provided the field names (and method names) are used for nothing else in the package, are never stored to, and `_replace` /
+    `_make` / `_asdict` / `_fields` / `isinstance(.., Cls)` do not occur.  All-or-nothing per class."""
+    done = []
+    cands = {}
+    for mod in model.modules.values():
+        if mod.short.startswith("_typeguard"):
+            continue
+        known = module_names.get(mod.short, set())
+        for st in mod.tree.body:
+            if not isinstance(st, ast.ClassDef) or st.name in known or st.decorator_list or st.keywords:
+                continue
+            if len(st.bases) != 1 or norm_base(st.bases[0]) != "NamedTuple":
+                continue
+            fields, meths, ok = [], {}, True
+            for b in _strip_doc(list(st.body)):
+                if isinstance(b, ast.AnnAssign) and isinstance(b.target, ast.Name) and b.value is None:
+                    fields.append(b.target.id)
+                elif isinstance(b, ast.FunctionDef) and not b.decorator_list and len(b.args.args) == 1 and not (b.args.vararg or b.args.kwarg or b.args.kwonlyargs):
+                    body = _strip_doc(list(b.body))
+                    if len(body) == 1 and isinstance(body[0], ast.Return) and body[0].value is not None and not b.name.startswith("__"):
+                        meths[b.name] = (b.args.args[0].arg, body[0].value)
+                    else:
+                        ok = False
+                elif isinstance(b, ast.Pass):
+                    continue
+                else:
+                    ok = False
+            if ok and fields:
+                cands[(mod.short, st.name)] = (st, fields, meths)
+    for (modshort, cname), (cnode, fields, meths) in cands.items():
+        inside = {id(x) for x in ast.walk(cnode)}
+        names = set(fields) | set(meths)
+        ok = True
+        # the names mean only this record
+        for c in model.classes.values():
+            if c.node is cnode or c.module.short.startswith("_typeguard"):
+                continue
+            if names & (set(c.methods) | {t.id for st in c.node.body if isinstance(st, ast.Assign) for t in st.targets if isinstance(t, ast.Name)}):
+                ok = False
+        for mod in model.modules.values():
+            if mod.short.startswith("_typeguard") or not ok:
+                continue
+            for x in ast.walk(mod.tree):
+                if id(x) in inside:
+                    continue
+                if isinstance(x, ast.Attribute) and x.attr in names and not isinstance(x.ctx, ast.Load):
+                    ok = False
+                if isinstance(x, ast.Attribute) and x.attr in ("_replace", "_make", "_asdict", "_fields", "_field_defaults"):
+                    ok = False
+                if isinstance(x, ast.Attribute) and x.attr in meths:
+                    par_ok = isinstance(x.value, (ast.Name, ast.Attribute))
+                    if not par_ok:
+                        ok = False
+                if isinstance(x, ast.Call) and isinstance(x.func, ast.Name) and x.func.id in ("isinstance", "issubclass") and any(isinstance(y, ast.Name) and y.id == cname for a in x.args for y in ast.walk(a)):
+                    ok = False
+                if isinstance(x, ast.Call) and isinstance(x.func, ast.Name) and x.func.id == cname:
+                    if x.keywords and x.args:
+                        ok = False
+                    elif x.keywords and (any(k.arg is None for k in x.keywords) or {k.arg for k in x.keywords} != set(fields)):
+                        ok = False
+                    elif x.args and not (len(x.args) == len(fields) and not any(isinstance(a, ast.Starred) for a in x.args)) and not (len(x.args) == 1 and isinstance(x.args[0], ast.Starred)):
+                        ok = False
+        if not ok:
+            continue
+
+        class Tr(ast.NodeTransformer):
+            def visit_Call(self, n):
+                self.generic_visit(n)
+                # method call on a name / attribute chain: the return expression with self := receiver
+                if isinstance(n.func, ast.Attribute) and n.func.attr in meths and not n.args and not n.keywords:
+                    selfn, expr = meths[n.func.attr]
+                    e = _SubstLoads({selfn: n.func.value}).visit(copy.deepcopy(expr))
+                    return ast.copy_location(Tr().visit(e), n)
+                if isinstance(n.func, ast.Name) and n.func.id == cname:
+                    if n.keywords:
+                        kw = {k.arg: k.value for k in n.keywords}
+                        return ast.copy_location(ast.Tuple(elts=[kw[f_] for f_ in fields], ctx=ast.Load()), n)
+                    if len(n.args) == 1 and isinstance(n.args[0], ast.Starred):
+                        return ast.copy_location(ast.Call(func=ast.Name(id="tuple", ctx=ast.Load()), args=[n.args[0].value], keywords=[]), n)
+                    return ast.copy_location(ast.Tuple(elts=list(n.args), ctx=ast.Load()), n)
+                return n
+
+            def visit_Attribute(self, n):
+                self.generic_visit(n)
+                if n.attr in fields and isinstance(n.ctx, ast.Load):
+                    return ast.copy_location(ast.Subscript(value=n.value, slice=ast.Constant(value=fields.index(n.attr)), ctx=ast.Load()), n)
+                return n
+
+        def mentions(e):
+            return e is not None and any((isinstance(y, ast.Name) and y.id == cname) or (isinstance(y, ast.Constant) and y.value == cname) for y in ast.walk(e))
+
+        for mod in model.modules.values():
+            if mod.short.startswith("_typeguard"):
+                continue
+            keep_cls = [st for st in mod.tree.body if st is cnode]
+            if keep_cls:
+                mod.tree.body = [st for st in mod.tree.body if st is not cnode]
+            Tr().visit(mod.tree)
+            for x in ast.walk(mod.tree):
+                if isinstance(x, (ast.FunctionDef, ast.AsyncFunctionDef)):
+                    if mentions(x.returns):
+                        x.returns = None
+                    for a in ast.walk(x.args):
+                        if isinstance(a, ast.arg) and mentions(a.annotation):
+                            a.annotation = None
+                elif isinstance(x, ast.ImportFrom):
+                    x.names = [a for a in x.names if a.name != cname] or [ast.alias(name=cname, asname=None)]
+            # drop `from .mod import Cls` lines that only imported the class
+            mod.tree.body = [st for st in mod.tree.body if not (isinstance(st, ast.ImportFrom) and len(st.names) == 1 and st.names[0].name == cname)]
+            for x in list(ast.walk(mod.tree)):
+                if isinstance(x, ast.AnnAssign) and mentions(x.annotation) and x.value is not None and isinstance(x.target, ast.Name):
+                    x.annotation = ast.Name(id="object", ctx=ast.Load())
+            ast.fix_missing_locations(mod.tree)
+        done.append(f"{modshort}.{cname}")
     return done
